@@ -25,6 +25,7 @@ UNITS = {
     "u35_rle_track": {"verus": "specs/u35_rle_track.vt.rs"},
     "u36_bool_load": {"verus": "specs/u36_bool_load.vt.rs"},
     "u37_readonly_sync": {"verus": "specs/u37_readonly_sync.vt.rs"},
+    "u38_seek_opid": {"verus": "specs/u38_seek_opid.vt.rs"},
     "u22_loadnext": {"verus": "specs/u22_loadnext.vt.rs"},
     "u23_exid_order": {"verus": "specs/u23_exid_order.vt.rs"},
     "u24_changeparse": {"verus": "specs/u24_changeparse.vt.rs"},
@@ -282,7 +283,7 @@ PROPERTIES.update({
     "C37": {
         "level": "proof",
         "verus": [("u04_ids", ["exid_to_opid", "exid_to_obj", "op_cursor_to_opid", "new", "get_actor_safe"]), ("u16_autocommit", ["ensure_transaction_open", "commit_with", "empty_change", "ensure_transaction_closed"]), ("u19_import", "*"),
-                  ("u21_patchlog_tx", "*"), ("u26_skipper", "*"), ("u27_hydrate_list", "*")],
+                  ("u21_patchlog_tx", "*"), ("u26_skipper", "*"), ("u27_hydrate_list", "*"), ("u38_seek_opid", "*")],
         "kani": ["u04_opid_new", "u12_normalize_range", "u08_width_single_scalar", "u04_changehash_try_from_slice"],
         "not_under_contract": ["every other public entry point", "the ~100 internal OpId::new call sites", "hydrate::Value::apply (path descent), hydrate::Map::apply"],
         "assumptions": ["a document has at most u32::MAX actors"],
